@@ -135,12 +135,11 @@ func cmdWproto(in *bufio.Scanner, out *bufio.Writer) error {
 }
 
 type rtCase struct {
-	ID     string `json:"id"`
-	Forest []Val  `json:"forest"`
+	Forest []Val `json:"forest"`
 }
 
 type rtObs struct {
-	ID    string `json:"id"`
+	Idx   int    `json:"idx"`
 	Mode  string `json:"mode"`
 	WErr  string `json:"werr"`
 	WPan  string `json:"wpanic"`
@@ -152,13 +151,15 @@ type rtObs struct {
 
 // roundtrip: write each forest with every writer mode, Finish, read the bytes back.
 func cmdRoundtrip(in *bufio.Scanner, out *bufio.Writer) error {
+	idx := 0
 	for in.Scan() {
 		var c rtCase
 		if err := json.Unmarshal(in.Bytes(), &c); err != nil {
 			return err
 		}
+		idx++
 		for _, mode := range []string{"text", "pretty", "binary"} {
-			o := rtObs{ID: c.ID, Mode: mode, Out: Bytes{}, Back: []Val{}}
+			o := rtObs{Idx: idx, Mode: mode, Out: Bytes{}, Back: []Val{}}
 			var buf bytes.Buffer
 			err, pan, site := safely(func() error {
 				w := newWriter(mode, &buf, nil)
